@@ -81,6 +81,47 @@ pub fn lattice_domains(kind: Kind) -> Vec<usize> {
     }
 }
 
+// "large-value" lattice: the same dimensions with a few values far beyond the small bounds (kernel 5 and 7,
+// stride 3 and 4, padding 3, dilation 3, 4 and 8 channels, 8 and 16 filters, planes 12x13 and 28x32). It is only
+// ever walked with the deviation-bounded enumerator (at most 1-2 dimensions away from the default), never in full.
+pub const K_X: [usize; 5] = [2, 1, 3, 5, 7];
+pub const S_X: [usize; 4] = [1, 2, 3, 4];
+pub const PAD_X: [usize; 4] = [0, 1, 2, 3];
+pub const DIL_X: [usize; 3] = [1, 2, 3];
+pub const CH_X: [usize; 4] = [1, 2, 4, 8];
+pub const FI_X: [usize; 5] = [1, 2, 3, 8, 16];
+pub const HH_X: [usize; 8] = [4, 3, 5, 6, 1, 2, 12, 28];
+pub const WW_X: [usize; 8] = [5, 3, 4, 7, 1, 2, 13, 32];
+
+pub fn xlattice_domains(kind: Kind) -> Vec<usize> {
+    match kind {
+        Kind::Conv => vec![5, 5, 4, 4, 4, 4, 3, 3, 4, 5, 8, 8],
+        Kind::Deconv => vec![5, 5, 4, 4, 4, 4, 1, 1, 4, 5, 8, 8],
+        Kind::Pool => vec![5, 5, 4, 4, 1, 1, 1, 1, 4, 1, 8, 8],
+    }
+}
+
+/// true if the point uses at least one value that the small lattice does not have
+pub fn xlattice_is_new(kind: Kind, ix: &[usize]) -> bool {
+    let small = lattice_domains(kind);
+    ix.iter().zip(&small).any(|(i, s)| i >= s)
+}
+
+pub fn xlattice_point(kind: Kind, ix: &[usize], act: Act) -> Option<(Dims, L)> {
+    let k = (K_X[ix[0]], K_X[ix[1]]);
+    let p = (PAD_X[ix[4]], PAD_X[ix[5]]);
+    let d = (DIL_X[ix[6]], DIL_X[ix[7]]);
+    let (c, f, h, w) = (CH_X[ix[8]], FI_X[ix[9]], HH_X[ix[10]], WW_X[ix[11]]);
+    let l = match kind {
+        Kind::Conv => L::Conv { f, k, s: (S_X[ix[2]], S_X[ix[3]]), p, d, act, drop: None },
+        Kind::Deconv => L::Deconv { f, k, s: (S_X[ix[2]], S_X[ix[3]]), p, act, drop: None },
+        Kind::Pool => L::Pool { k, s: (S_X[ix[2]], S_X[ix[3]]) },
+    };
+    let net = Net::new(Dims::Chw(c, h, w), vec![l.clone()]);
+    ref_shapes(&net).ok()?;
+    Some((Dims::Chw(c, h, w), l))
+}
+
 /// lattice point -> (input dims, layer); None when the point is not a valid configuration
 pub fn lattice_point(kind: Kind, ix: &[usize], act: Act) -> Option<(Dims, L)> {
     let k = (K[ix[0]], K[ix[1]]);
@@ -333,6 +374,31 @@ pub struct PredictOk {
     pub exact: bool,
     pub nontrivial: bool,
     pub lib_out: Vec<f32>,
+    /// some intermediate of the exact reference leaves the single-precision range: nothing was compared
+    pub overflow: bool,
+}
+
+fn trace_max(tr: &crate::refmodel::net::Trace<f64>) -> f64 {
+    fn lt(t: &crate::refmodel::net::LTrace<f64>) -> f64 {
+        let mut m = 0.0f64;
+        for v in t.x.iter().chain(t.pre.iter()).chain(t.post.iter()) {
+            m = m.max(if v.is_finite() { v.abs() } else { f64::INFINITY });
+        }
+        for i in &t.inner {
+            m = m.max(lt(i));
+        }
+        m
+    }
+    let mut m = 0.0f64;
+    for l in &tr.layers {
+        m = m.max(lt(l));
+    }
+    for a in &tr.activated {
+        for v in a {
+            m = m.max(if v.is_finite() { v.abs() } else { f64::INFINITY });
+        }
+    }
+    m
 }
 
 /// exact-arithmetic data for structural checks: weights in {-1,0,1,2}, inputs small integers scaled by `unit`
@@ -384,6 +450,10 @@ pub fn predict_vs_ref(net: &Net, params: &[P<f32>], x: &[f32], tol: f64) -> Resu
     let p64 = crate::refmodel::net::to_f64(params);
     let tr = crate::refmodel::net::forward(net, &shapes, &p64, &x64, false);
     let want = tr.activated.last().unwrap();
+    if trace_max(&tr) > 1.0e30 {
+        // repeated multiplication / many repetitions: the exact value is outside what f32 can hold
+        return Ok(PredictOk { exact: false, nontrivial: false, lib_out: v, overflow: true });
+    }
     let nontrivial = {
         let mut dd: Vec<i64> = want.iter().filter(|v| **v != 0.0).map(|v| (v * 4096.0) as i64).collect();
         dd.sort_unstable();
@@ -391,13 +461,13 @@ pub fn predict_vs_ref(net: &Net, params: &[P<f32>], x: &[f32], tol: f64) -> Resu
         dd.len() >= 2
     };
     match compare_out(&v, want, tol) {
-        Ok(exact) => Ok(PredictOk { exact, nontrivial, lib_out: v }),
+        Ok(exact) => Ok(PredictOk { exact, nontrivial, lib_out: v, overflow: false }),
         Err(e) => {
             let chained = net.connects.iter().any(|(a, _)| net.connects.iter().any(|(_, b)| b == a));
             if chained {
                 let tr2 = crate::refmodel::net::forward(net, &shapes, &p64, &x64, true);
                 if let Ok(exact) = compare_out(&v, tr2.activated.last().unwrap(), tol) {
-                    return Ok(PredictOk { exact, nontrivial, lib_out: v });
+                    return Ok(PredictOk { exact, nontrivial, lib_out: v, overflow: false });
                 }
             }
             Err(Mismatch::Value(e))
